@@ -34,7 +34,7 @@ Theorem content_length_over_limit c b hd rest m t v h cl n :
   head_at c b hd rest -> parse_head hd = Some (m, t, v, h) ->
   hcomb h K_CL = Some cl -> mem COMMA cl = false -> parse_int cl = Some n -> eff_max_body c < n ->
   exists pre, serve_msg whole_ops plain_dlg c b = (pre ++ [EvBad400], None) /\
-              (pre = [] \/ pre = [EvReq m t v (get_all h)]).
+              (pre = [] \/ pre = req_evs m t v h).
 Proof.
   intros H P A B C D. apply (reject_bad_framing c b hd rest m t v h H P).
   eapply plan_cl_too_large; eassumption.
@@ -101,7 +101,8 @@ Qed.
 
 (* ---------- limits that are not hit do not change anything ---------- *)
 Definition limits_le (c c' : cfg) : Prop :=
-  (max_header c <= max_header c')%nat /\ eff_max_body c <= eff_max_body c' /\ chunk_pred c = chunk_pred c'.
+  (max_header c <= max_header c')%nat /\ eff_max_body c <= eff_max_body c' /\ chunk_pred c = chunk_pred c' /\
+  no_keep_alive c = no_keep_alive c'.
 
 Definition refusal (e : ev) : bool := match e with EvBad400 | EvClosed => true | _ => false end.
 Definition no_refusal (evs : list ev) : bool := forallb (fun e => negb (refusal e)) evs.
@@ -150,27 +151,28 @@ Qed.
 Lemma no_refusal_app a b : no_refusal (a ++ b) = no_refusal a && no_refusal b.
 Proof. apply forallb_app. Qed.
 
-Lemma finish_body_refusal m t v hs data (bs : bstat bytes) ka :
-  no_refusal (fst (finish_body (EvReq m t v hs) data DOk bs ka)) = true -> bs <> BBadS /\ bs <> BUnsatS.
+Lemma finish_body_refusal m t v h data (bs : bstat bytes) ka :
+  no_refusal (fst (finish_body (req_evs m t v h) data DOk bs ka)) = true -> bs <> BBadS /\ bs <> BUnsatS.
 Proof.
-  unfold finish_body. destruct bs; cbn [fst]; intros H; split; try discriminate;
-    destruct data; cbn in H; discriminate.
+  unfold finish_body, req_evs. destruct bs; cbn [fst]; intros H; split; try discriminate;
+    destruct (expects_continue h), data; cbn in H; discriminate.
 Qed.
 
 Lemma serve_msg_mono c c' b :
   limits_le c c' -> no_refusal (fst (serve_msg whole_ops plain_dlg c b)) = true ->
   serve_msg whole_ops plain_dlg c' b = serve_msg whole_ops plain_dlg c b.
 Proof.
-  intros (LH & LB & CP) NR. unfold serve_msg in *. cbn [rd_regex whole_ops] in *.
+  intros (LH & LB & CP & NK) NR. unfold serve_msg in *. cbn [rd_regex whole_ops] in *. rewrite <- NK.
   assert (U : w_delim find_term (max_header c) b <> RUnsat).
   { intros E. rewrite E in NR. discriminate. }
   rewrite (w_delim_mono _ _ _ _ LH U).
   destruct (w_delim find_term (max_header c) b) as [hd t1| |]; try reflexivity.
   destruct (parse_head hd) as [[[[m t] v] h0]|]; [|reflexivity].
-  destruct (can_keep_alive m v h0) as [ka|]; [|reflexivity].
+  destruct (can_keep_alive (no_keep_alive c) m v h0) as [ka|]; [|reflexivity].
   cbn [d_headers plain_dlg] in *.
   destruct (host_check v h0); [|reflexivity].
-  destruct (body_plan (eff_max_body c) h0) as [p|] eqn:Pl; [|discriminate].
+  destruct (body_plan (eff_max_body c) h0) as [p|] eqn:Pl;
+    [|exfalso; cbn [fst] in NR; unfold req_evs in NR; destruct (expects_continue h0); discriminate].
   rewrite (body_plan_mono _ _ _ _ LB Pl).
   destruct p as [|n|]; [reflexivity| |].
   - cbn [rd_body whole_ops]. rewrite <- CP. reflexivity.
